@@ -224,6 +224,11 @@ func TestRetryModel(t *testing.T) {
 		if last.err == nil && retries > 0 {
 			failedRetries--
 		}
+		// every retry that was made is reported, however the sequence ends (exhausted, context ended during a retry, MaxElapsedTime):
+		// once per failed retry, or once per retry for an implementation that reports before the attempt
+		if c.Hook && len(hooks) != failedRetries && len(hooks) != retries {
+			t.Fatalf("violation: OnRetryHook called %d times (%v) for %d retries (%d failed) (%s)", len(hooks), hooks, retries, failedRetries, c)
+		}
 		switch c.Mode {
 		case 0:
 			want := c.MaxRetries + 1
